@@ -151,6 +151,30 @@ pub fn walk(v: &Value, out: &mut Unresolved) {
     }
 }
 
+/// name -> type name of every `ExpectValue` node whose type is one of the scalar ones (read off the serialised tree,
+/// independently of `find_params`)
+pub fn expected_values<T: serde::Serialize>(t: &T) -> std::collections::BTreeMap<String, String> {
+    fn go(v: &Value, out: &mut std::collections::BTreeMap<String, String>) {
+        match v {
+            Value::Object(o) => {
+                for (k, x) in o {
+                    if k == "ExpectValue" {
+                        if let (Some(n), Some(ty)) = (x.get(0).and_then(|n| n.as_str()), x.get(1).and_then(|t| t.as_str())) {
+                            out.insert(n.to_string(), ty.to_string());
+                        }
+                    }
+                    go(x, out);
+                }
+            }
+            Value::Array(a) => a.iter().for_each(|x| go(x, out)),
+            _ => {}
+        }
+    }
+    let mut out = Default::default();
+    go(&to_json(t), &mut out);
+    out
+}
+
 pub fn unresolved<T: serde::Serialize>(t: &T) -> Unresolved {
     let mut u = Unresolved::default();
     walk(&to_json(t), &mut u);
